@@ -164,7 +164,11 @@ class Exec:
             return [st]
         if isinstance(n, ast.AugAssign):
             cur = self.ev(n.target, st)
-            v = self.binop(n.op, cur, self.ev(n.value, st), n, st)
+            rhs = self.ev(n.value, st)
+            v = self.binop(n.op, cur, rhs, n, st)
+            h = self.lib.get('augassign')
+            if h is not None:
+                h(self, st, n, cur, v, rhs)     # in-place operators on arrays cannot change the array's kind
             self.assign(n.target, v, st)
             return [st]
         if isinstance(n, ast.AnnAssign):
